@@ -135,12 +135,15 @@ CLAIMS['C19'] = dict(
     text="Proved for all inputs: helpers.typekey returns the tuple or its reverse, is reversal invariant and two tuples have the same key iff "
          "they are equal up to reversal (arities 2-4, relational obligations over the product of the path sets of three symbolic runs of "
          "the real function); rough_uff.delete_if_all_in_set removes exactly the tuples wholly inside the exclusion set (loop invariant, "
-         "widths 2-4). Enumeration completeness of calc_angles / calc_dihedrals (networkx), first-seen numbering, coefficients per key, "
-         "dropping of undefined torsions, renaming / permutation invariance and the retyping tables are only checked with a stated bound: "
+         "widths 2-4); rough_uff.assign_bond_types and assign_angle_types, for term lists of any length: two terms get the same type number "
+         "exactly when their UFF type sequences agree up to reversal, the coefficient line of a term's type is the one computed from the "
+         "term's own sequence, type numbers are dense (modular over the contracts of typekey, bond_params / angle_params, angle2lammpsdat). "
+         "Enumeration completeness of calc_angles / calc_dihedrals (networkx), dihedral typing (torsion counts, dropping of undefined "
+         "torsions), renaming / permutation invariance and the retyping tables are only checked with a stated bound: "
          "all labelled trees up to 5 nodes, rings, ring assemblies, a metal node, 3 type assignments, renamings, all 221 UFF types.",
-    note="Level 'other': networkx traversal is not modelled, so the enumeration clauses are bounded. Known finding: UFF types Du and Lw6+3 have "
-         "no mass entry (retype raises).",
-    technique='contract-based deductive verification of the canonical key and the exclusion filter (z3) + bounded graph enumeration')
+    note="Level 'other': networkx traversal is not modelled, so the enumeration clauses are bounded. Assumed: list(dict.fromkeys(xs).keys()) = distinct "
+         "elements in first-occurrence order, list.index. Known finding: UFF types Du and Lw6+3 have no mass entry (retype raises).",
+    technique='contract-based deductive verification of the canonical key, the exclusion filter and bond / angle typing (z3) + bounded graph enumeration')
 CLAIMS['C12'] = dict(
     category='proof',
     text="Atoms.replicate is executed symbolically for an arbitrary atom, an arbitrary 3x3 cell and symbolic positive factors, with copy / "
